@@ -31,8 +31,14 @@ def gen_config(rng, thorough, cls=None):
         txblock, txcount = rng.choice([0, 1]), (0 if rng.random() < 0.5 else 2000)
         if txblock == 1:
             txcount = 0
+    elif cls == "large":
+        # a large committee: the speaker of one round hears more backups than the default shape produces in minutes
+        # (the round-trip estimator's 70-slot ring wraps in the first round; seeded change C17j)
+        count, watchers, txblock, txcount = rng.choice([72, 76, 80]), 0, 1, 200
     procs = rng.choice([1, 2, 4, 16])
     dur = rng.choice([17, 19, 22] if not thorough else [17, 22, 25, 31])
+    if cls == "large":
+        procs, dur = 16, 22
     if cls in ("blocked", "single"):
         # long enough to tell a block every 10 s from one every 5 s (a lone validator is woken by its timer only)
         dur = 32 if not thorough else rng.choice([32, 41])
@@ -77,6 +83,19 @@ def judge(cfg, rc, per_node, hashes, out):
     for h, hs in hashes.items():
         if len(hs) > 1:
             return "different-blocks", "height %d approved with hashes %s" % (h, sorted(hs))
+    if cfg["count"] > 16:
+        # large committees: the example drops messages when a node's channel is full ("channel is full"), and a node
+        # that misses a block has no way to fetch it - on the unchanged tree a few of the 72-80 nodes fall behind.
+        # Judged: the chain keeps growing on a quorum - every height 1..k approved by at least M validators, k as
+        # for the small shapes but with two blocks of slack below (80 ECDSA nodes share 16 cores).
+        m = cfg["count"] - (cfg["count"] - 1) // 3
+        k = 0
+        while sum(1 for nid in range(cfg["count"]) if k + 1 in per_node.get(nid, [])) >= m:
+            k += 1
+        if k < max(1, lo - 1):
+            key = "stopped-after-first-block" if k <= 1 else "too-few-blocks"
+            return key, "only heights 1..%d were approved by a quorum (%d of %d validators) in %ds (expected at least %d)" % (k, m, cfg["count"], D, max(1, lo - 1))
+        return None, ""
     for nid in range(nodes):
         hts = per_node.get(nid, [])
         # (the blocked validator hears everybody, only its own payloads are dropped: it has to keep up like the others)
@@ -119,6 +138,8 @@ def main(prop, spec, argv, seed, chk):
                 runs[3] = gen_config(rng, tier == "thorough", "empty")
             if n > 4:
                 runs[4] = gen_config(rng, tier == "thorough", "blocked")
+            if n > 5:
+                runs[5] = gen_config(rng, tier == "thorough", "large")
         netns = subprocess.run(["unshare", "-n", "true"], stdout=subprocess.DEVNULL, stderr=subprocess.DEVNULL).returncode == 0
         results = []
         viols = []
